@@ -485,9 +485,10 @@ class World(object):
             return "err:" + type(e).__name__, details
 
     def release_leaked_holds(self):
-        """defcon's composite mutators hold the object's notifications without try/finally: when an element
-        is rejected the hold is never released and the object stays mute.  The harness releases such a hold
-        after the failed call (outside the recorded window) so that later operations are observable."""
+        """a composite mutator that holds the object's notifications without try/finally leaves them held for
+        good when an element is rejected (the list assignments and Layer.insertGlyph were repaired in 67bac07;
+        decompose* still bracket without finally).  The harness releases such a hold after the failed call
+        (outside the recorded window) so that later operations stay observable."""
         center = self.font.dispatcher
         users = [id(o) for o in self.user_holds]
         for (name, obs, observer) in list(center.getHeldNotifications()):
@@ -565,6 +566,13 @@ class World(object):
             def t():
                 del o[key]
             return t, dict(target=o, key=key)
+        if k in ("setdefault", "pop"):
+            o = self.resolve(op[1])
+            key = tuple(op[2]) if op[1][0] == "kerning" else op[2]
+            if k == "setdefault":
+                v = copy.deepcopy(op[3])
+                return (lambda: o.setdefault(key, v)), dict(target=o, key=key, value=v)
+            return (lambda: o.pop(key, None)), dict(target=o, key=key)
         if k == "clear":
             o = self.resolve(op[1])
             return o.clear, dict(target=o)
